@@ -210,5 +210,17 @@ claim(
     "signature. The round-trip over generated documents is NOT decided by this family.",
     TB + "; docs/reference/docstrings.md is read at run time",
 )
-for _p in [f"C{n:02d}" for n in range(1, 20) if f"C{n:02d}" not in CLAIMED]:
+claim(
+    "C03",
+    "finite-domain abstract evaluation of the builders and renderers (their own ASTs interpreted on an enumerated corpus of expression shapes: "
+    "every node kind, every operator, every operand class in every operand slot, every operator pair on both sides), table agreement with the "
+    "interpreter's ast classes and operator tokens, decision table of the string-annotation rule, field-coverage lint of the builders",
+    "Decided for every shape of the corpus (about 2000 expressions up to depth 2, with the parentheses CPython's own unparser requires): the text "
+    "produced by _build + Expr.iterate parses back to the same tree as the source, flat iteration yields the pieces of that text with every "
+    "referenced name as a name element; string annotations are parsed exactly when the defining module does not postpone evaluation and never "
+    "inside Literal; decorators/defaults/values/bases never parse strings; every builder reads every field of its node. Nesting deeper than two "
+    "levels is covered only through the compositional structure of the renderers (each slot passes its own precedence), not enumerated.",
+    TB + "; ast.parse / ast.unparse of the running interpreter are the reference for 'same tree' and for the required parentheses",
+)
+for _p in [f"C{n:02d}" for n in range(1, 21) if f"C{n:02d}" not in CLAIMED]:
     NOT_YET[_p] = "check under construction in this round (static rules designed in DESIGN.md section 3; not yet registered)"
